@@ -154,12 +154,69 @@ def activate (dflt : Loc → Option Bool) (body : Stmt) (s : St) (i : Loc → Op
   commit dflt (exec body (clearPend (setInputs i s))).1
 end Seq
 
-/-! ## concurrent contexts / `cohdl.always`: targets are a function of the CURRENT operand values -/
+/-! ## concurrent contexts / `cohdl.always`: targets are a function of the CURRENT operand values
 
-/-- the assignments are listed in dependency order (a target may be read by later ones) -/
-def concStep (cs : List (Target × Expr)) (s : St) : St :=
-  cs.foldl (fun s c =>
-    { s with sig := writeBits s.sig c.1.obj (eval c.1.idx s) c.1.lo c.1.w (fun b => (eval c.2 s).testBit b) }) s
+  A concurrent context (and every assignment / expression hoisted with `cohdl.always`) is a SET of continuous assignments
+  `target <= expression`.  `drive` = one evaluation of one assignment (a VHDL delta for that statement); `settleOrder` =
+  evaluation in a given order; `settle` = evaluation in a topological order of the dependency graph (the delta-cycle
+  fixpoint of an acyclic system), guarded by `wellOrdered` (acyclic + one driver per object), `none` otherwise. -/
+
+structure CA where
+  obj : Nat
+  elem : Nat
+  lo : Nat
+  w : Nat
+  e : Expr
+
+def CA.covers (c : CA) (l : Loc) : Bool := inRange l c.obj c.elem c.lo c.w
+
+def drive (c : CA) (s : St) : St :=
+  { s with sig := writeBits s.sig c.obj c.elem c.lo c.w (fun b => (eval c.e s).testBit b) }
+
+def settleOrder (cs : List CA) (s : St) : St := cs.foldl (fun s c => drive c s) s
+
+def readsSig : Expr → Nat → Bool
+  | .const _, _ => false
+  | .rd sp obj idx _ _, o => (sp == .sig && obj == o) || readsSig idx o
+  | .tmp _, _ => false
+  | .slice e _ _, o => readsSig e o
+  | .add _ a b, o => readsSig a o || readsSig b o
+  | .eq a b, o => readsSig a o || readsSig b o
+  | .not a, o => readsSig a o
+  | .and a b, o => readsSig a o || readsSig b o
+  | .or a b, o => readsSig a o || readsSig b o
+  | .sel c a b, o => readsSig c o || readsSig a o || readsSig b o
+  | .cat a _ b, o => readsSig a o || readsSig b o
+
+def targets (cs : List CA) : List Nat := cs.map (·.obj)
+
+def readsAny (e : Expr) (os : List Nat) : Bool := os.any (readsSig e)
+
+def wellOrdered : List CA → Bool
+  | [] => true
+  | c :: rest => !(readsAny c.e (c.obj :: targets rest)) && !((targets rest).contains c.obj) && wellOrdered rest
+
+/-- first assignment that reads none of the targets still to be computed, and the others -/
+def pickReady (all : List Nat) : List CA → Option (CA × List CA)
+  | [] => none
+  | c :: cs => if !(readsAny c.e all) then some (c, cs) else (pickReady all cs).map (fun r => (r.1, c :: r.2))
+
+/-- a topological order of the assignments (none: cyclic dependency / combinational loop) -/
+def topoSort : Nat → List CA → Option (List CA)
+  | _, [] => some []
+  | 0, _ :: _ => none
+  | n + 1, c :: cs =>
+    match pickReady (targets (c :: cs)) (c :: cs) with
+    | none => none
+    | some r => (topoSort n r.2).map (r.1 :: ·)
+
+/-- settle: evaluate the assignments in a topological order; the order found is re-checked (`wellOrdered`: acyclic, one
+    driver per object), `none` = rejected (combinational loop or two drivers) -/
+def settle (cs : List CA) (s : St) : Option St :=
+  match topoSort cs.length cs with
+  | some ord => if wellOrdered ord then some (settleOrder ord s) else none
+  | none => none
+
 
 /-! ## target level: the process the compiler emits -/
 
